@@ -188,6 +188,39 @@ def _canon(resp):
     return re.sub(r"0x[0-9a-fA-F]+", "0x", json.dumps(resp, sort_keys=True, default=repr))
 
 
+def multi_root_cases(rng, s):
+    """Subscriptions with MORE than one root field, the extra one reached directly, through inline fragments or through
+    named fragments: validation must refuse them -- one errors-only response, no source started."""
+    flds = [f for f in s["types"]["Subscription"]["fields"]
+            if not any(a["type"][0] == "nonnull" and a.get("default") is None for a in f.get("args", []))]
+    if not flds:
+        return []
+
+    def sel(f, alias=None):
+        kind = s["types"].get(gen.named_of(f["type"]), {"kind": "SCALAR"})["kind"]
+        sub = " { __typename }" if kind in ("OBJECT", "INTERFACE", "UNION") else ""
+        return "%s%s%s" % (alias + ": " if alias else "", f["name"], sub)
+    f1 = rng.choice(flds)
+    f2 = rng.choice(flds)
+    a, b = sel(f1, "ka"), sel(f2, "kb")
+    docs = [
+        "subscription { %s %s }" % (a, b),
+        "subscription { %s ... on Subscription { %s } }" % (a, b),
+        "subscription { ... on Subscription { %s } ... { %s } }" % (a, b),
+        "subscription { ...F } fragment F on Subscription { %s ... on Subscription { %s } }" % (a, b),
+        "subscription { %s ...G } fragment G on Subscription { %s }" % (a, b),
+        "subscription { ... { ... { %s } } ... on Subscription { ...G } } fragment G on Subscription { %s }" % (a, b),
+    ]
+    orc = execgen.Oracle(s, rng.randrange(1 << 30), 0.0, 0.0)
+    out = []
+    for q in docs:
+        events = [{f1["name"]: orc.value(orc.rng_for("ev", i), f1["type"], 0),
+                   f2["name"]: orc.value(orc.rng_for("ev2", i), f2["type"], 0)} for i in range(2)]
+        out.append({"query": q, "variables": {}, "opname": None, "field": f1["name"], "events": events,
+                    "oracle_seed": rng.randrange(1 << 30), "must_refuse": "single-root-field"})
+    return out
+
+
 def main(tier_, replay=None):
     from . import engine_env
     rep = common.Report("C14")
@@ -209,6 +242,7 @@ def main(tier_, replay=None):
                 s["resolvers"].discard(("Subscription", f["name"]))
                 s["field_type_resolvers"].discard(("Subscription", f["name"]))
         cases = [gen_sub_case(rng, s) for _ in range(n_cases)]
+        cases += multi_root_cases(random.Random(seed * 977 + si), s)      # at the END: indices of the streams above stay aligned
         runs = asyncio.run(run_schema(s, cases, fresh_schema_name("c14")))
         for it in getattr(run_schema, "interleaved", []):
             interleaved_total += 1
@@ -225,6 +259,14 @@ def main(tier_, replay=None):
         all_asts = []          # number lexemes of EVERY stream's document (also streams without events) for the float() table
         for c, r in zip(cases, runs):
             total_streams += 1
+            if c.get("must_refuse"):
+                refused += 1
+                rs = r["responses"]
+                if r["raised"] or r["started"] or len(rs) != 1 or rs[0].get("data") is not None or not rs[0].get("errors"):
+                    viol.append((s, c, r, "a subscription with several root fields (rule %s) was not refused with a single "
+                                 "errors-only response before any source started: started=%r raised=%r" % (
+                                     c["must_refuse"], r["started"], r["raised"])))
+                continue
             ast = gen.parse_query(c["query"])
             all_asts.append(ast)
             started = bool(r["started"])
